@@ -46,7 +46,7 @@ _HUB_ASSUME = ["Go runtime semantics are modelled, not verified: a select picks 
 PROPS = {
     "C01": {"streams": [{"name": "stack", "quick": 700, "thorough": 20000, "thorough_seeds": 3, "stateful": True, "seq_start": "stack-new"},
                         _FRAG_STREAM, {"name": "mux", "quick": 3000, "thorough": 100000, "thorough_seeds": 2}],
-            "oracles": ["swarm", "frag", "mux"], "oracle_n": {"quick": 28, "thorough": 600},
+            "oracles": ["swarm", "frag", "mux"], "oracle_n": {"quick": 32, "thorough": 640},
             "oracle_n_by": {"mux": {"quick": 4000, "thorough": 200000}, "frag": {"quick": 3000, "thorough": 100000}},
             "rule": "the multiplexer functions are handed the caller's vector as 1-3 segments with spare capacity and must leave it as it was; stack stream: random nestings of 0-3 multiplexer channels (all five kinds) around at most one fragmenting swarm over an "
                     "in-memory base of MTU 20-1200 whose datagrams the harness captures and releases; payloads at MTU-1/MTU/MTU+1, base and "
@@ -60,11 +60,12 @@ PROPS = {
                             "checked for admissibility against the ledger",
                             "the stack theorem composes per-layer soundness (C10 reassembly, C15 framing, C02 channel authenticity); it does not "
                             "re-prove them"]},
-    "C13": {"streams": [_HUB_STREAM], "oracles": ["hub", "swarm"], "rule": _HUB_RULE, "assumptions": _HUB_ASSUME, "oracle_n": {"quick": 100, "thorough": 2000}},
+    "C13": {"streams": [_HUB_STREAM], "oracles": ["hub", "swarm"], "rule": _HUB_RULE, "assumptions": _HUB_ASSUME, "oracle_n": {"quick": 100, "thorough": 2000},
+            "oracle_n_by": {"swarm": {"quick": 32, "thorough": 640}}},
     "C12": {"streams": [_HUB_STREAM], "oracles": ["hub", "swarm", "kesw"], "rule": _HUB_RULE + " " + _KESW_RULE, "assumptions": _HUB_ASSUME, "oracle_n": {"quick": 100, "thorough": 2000},
-            "oracle_n_by": {"kesw": {"quick": 8, "thorough": 500}}},
+            "oracle_n_by": {"kesw": {"quick": 8, "thorough": 500}, "swarm": {"quick": 32, "thorough": 640}}},
     "C11": {"streams": [_HUB_STREAM, _FRAG_STREAM, {"name": "ask", "quick": 15000, "thorough": 400000, "thorough_seeds": 2, "stateful": True, "seq_start": "a-new"}], "oracles": ["hub", "swarm", "mbask"], "assumptions": _HUB_ASSUME, "oracle_n": {"quick": 100, "thorough": 2000},
-            "oracle_n_by": {"mbask": {"quick": 25, "thorough": 1500}},
+            "oracle_n_by": {"mbask": {"quick": 25, "thorough": 1500}, "swarm": {"quick": 32, "thorough": 640}},
             "rule": _HUB_RULE + " `ask` stream: the real mbapp ask path under the fake clock (bin/corr26) against Model/Asker.lean: asks with response "
                     "buffers of 0..64 bytes and time-outs of 5 ms..40 s to two real responder swarms whose handlers answer, answer long or fail; "
                     "the harness holds every datagram, serves requests (also expired ones, also twice), and delivers replies unchanged or "
@@ -75,8 +76,8 @@ PROPS = {
                     "requests and replies are handed over late, out of order, twice, after the ask was cancelled or after a restart; "
                     "every Ask that succeeds must return what the handler produced for that very request, within its deadline."},
     "C14": {"streams": [_HUB_STREAM, {"name": "frag", "quick": 15000, "thorough": 300000, "thorough_seeds": 2, "stateful": True, "seq_start": ("frag-new", "mb-new")}],
-            "oracles": ["hub", "frag", "mux"], "oracle_n_by": {"frag": {"quick": 3000, "thorough": 100000}, "mux": {"quick": 2000, "thorough": 100000}},
-            "rule": _HUB_RULE + " Buffer ownership above the hubs: in the frag, ke and ket streams every packet is handed to the layer in a "
+            "oracles": ["hub", "frag", "mux", "swarm"], "oracle_n_by": {"frag": {"quick": 3000, "thorough": 100000}, "mux": {"quick": 2000, "thorough": 100000}, "swarm": {"quick": 16, "thorough": 320}},
+            "rule": _HUB_RULE + " Swarm oracle: a reassembling layer (fragswarm, mbapp) over a network that duplicates every datagram a little later, three receivers whose callbacks hold their message: the memory of a message is never handed to a second callback while its owner runs and its contents stay what they were on entry. Buffer ownership above the hubs: in the frag, ke and ket streams every packet is handed to the layer in a "
                     "buffer that the harness overwrites as soon as the call returns (hx.Lend/Reclaim), as a transport that reuses its receive "
                     "buffers does; a layer that keeps a reference instead of a copy delivers corrupted bytes, which the model does not.", "level": "proof",
             "assumptions": _HUB_ASSUME + ["data-race freedom under the Go memory model is NOT claimed (no model represents happens-before); "
@@ -135,7 +136,7 @@ PROPS = {
     },
     "C09": {
         "streams": [_FRAG_STREAM, {"name": "mux", "quick": 6000, "thorough": 300000, "thorough_seeds": 3}],
-        "oracles": ["frag", "mux", "swarm"], "oracle_n_by": {"swarm": {"quick": 28, "thorough": 600}},
+        "oracles": ["frag", "mux", "swarm"], "oracle_n_by": {"swarm": {"quick": 32, "thorough": 640}},
         "rule": "swarm oracle: on 14 real stacks (incl. QUIC and SSH over loopback) Tells at MTU-1/MTU/MTU+1 and Asks with requests of "
                 "MTU-5..MTU (answered) and MTU+1 (refused with the MTU error); payload lengths 0, 1, part size +-1, 2 and 3 parts, MTU-1, MTU, MTU+1 against fragswarm/mbapp over inner MTUs "
                 "14..1200 and configured MTUs 10..100000; muxed swarms of all five kinds over inner MTUs 16..65536 with payloads "
@@ -186,8 +187,8 @@ PROPS = {
     },
     "C16": {
         "streams": [{"name": "addr", "quick": 15000, "thorough": 300000, "thorough_seeds": 3}],
-        "oracles": ["addr"],
-        "rule": "one case per distinct operation text: addresses of every kind at nesting depth 0-4 (IPv4, IPv6, zoned and "
+        "oracles": ["addr", "swarm"], "oracle_n_by": {"swarm": {"quick": 16, "thorough": 320}},
+        "rule": "swarm oracle: the local, source and destination addresses harvested from 16 real stacks are marshalled and parsed back by the swarm that produced them; one case per distinct operation text: addresses of every kind at nesting depth 0-4 (IPv4, IPv6, zoned and "
                 "IPv4-mapped IPs, ports 0/1/65535/random, SHA256 fingerprints, 32-byte ids, scheme tables of 1-3 names), half of "
                 "the parse cases use mutated text (inserted/deleted/replaced separators, odd port spellings, non-canonical IPs, "
                 "truncation, junk); the IP and port sub-parsers are supplied per case from net/netip and fmt.Sscan",
